@@ -280,3 +280,24 @@ class AnchorSpringActuator:
     def E_pot(self, t, q):
         _, _, l = self._geo(q)
         return 0.5 * self.k * (l - self.l0) ** 2
+
+
+class PoisonedForce:
+    """Fault F1n: a user force law that stops being evaluable at time / load level ``t_p`` (0/0, root of a negative
+    number, overflow ...): from then on it evaluates to NaN.  Before, it contributes nothing."""
+
+    def __init__(self, body, t_p, name="poisoned_force"):
+        self.subsystem = body
+        self.t_p = float(t_p)
+        self.name = name
+
+    def assembler_callback(self):
+        self.qDOF = self.subsystem.qDOF
+        self.uDOF = self.subsystem.uDOF
+
+    def h(self, t, q, u):
+        n = len(self.uDOF)
+        return np.zeros(n) if t < self.t_p else np.full(n, np.nan)
+
+    def h_q(self, t, q, u):
+        return np.zeros((len(self.uDOF), len(self.qDOF)))
